@@ -1373,6 +1373,33 @@ class Inliner:
                 return None
         return e
 
+    def _singleton_class(self, modname, name):
+        """'mod.C' when `name = C()` is the only binding of a module-level name to an object of a new class without state
+        (no __init__, no fields): calling the object is calling C.__call__"""
+        tree = self.trees.get(modname)
+        if tree is None:
+            return None
+        binds = [s_ for s_ in tree.body if isinstance(s_, ast.Assign) and any(isinstance(t, ast.Name) and t.id == name for t in s_.targets)]
+        stores = [n for n in ast.walk(tree) if isinstance(n, ast.Name) and n.id == name and isinstance(n.ctx, (ast.Store, ast.Del))]
+        if len(binds) != 1 or len(stores) != 1 or any(isinstance(g, ast.Global) and name in g.names for g in ast.walk(tree)):
+            return None
+        v_ = binds[0].value
+        if not (isinstance(v_, ast.Call) and isinstance(v_.func, ast.Name) and not v_.args and not v_.keywords):
+            return None
+        nc = self._new_class(modname, v_.func.id)
+        if nc is None:
+            return None
+        cd, methods = nc
+        if "__init__" in methods or "__call__" not in methods:
+            return None
+        for m_ in methods.values():
+            if m_.decorator_list:
+                continue
+            sp_ = m_.args.args[0].arg
+            if any(isinstance(a, ast.Attribute) and isinstance(a.value, ast.Name) and a.value.id == sp_ and a.attr not in methods for a in ast.walk(m_)):
+                return None  # reads or writes a field
+        return modname + "." + cd.name
+
     def resolve(self, call, modname, cls, enclosing_chain):
         f = call.func
         if isinstance(f, ast.Name):
@@ -1382,6 +1409,10 @@ class Inliner:
                 if q in self.index:
                     return q, None
             q = modname + "." + f.id
+            if q not in self.index:
+                sc = self._singleton_class(modname, f.id)
+                if sc is not None and (sc + ".__call__") in self.index:
+                    return sc + ".__call__", f
             return (q, None) if q in self.index else (None, None)
         if isinstance(f, ast.Attribute) and isinstance(f.value, ast.Name):
             if f.value.id in self._objs:
@@ -1485,6 +1516,16 @@ class Inliner:
                     conv = True
         if conv:
             self._reindex()
+        # a stateless callable singleton whose every call was unfolded: the object is no longer needed
+        for mn, tree in self.trees.items():
+            for s_ in list(tree.body):
+                if isinstance(s_, ast.Assign) and len(s_.targets) == 1 and isinstance(s_.targets[0], ast.Name):
+                    nm_ = s_.targets[0].id
+                    sc_ = self._singleton_class(mn, nm_)
+                    if sc_ and not any(isinstance(n, ast.Name) and n.id == nm_ and isinstance(n.ctx, ast.Load) for t in self.trees.values() for n in ast.walk(t)) \
+                            and not any(isinstance(n, ast.Attribute) and n.attr == nm_ for t in self.trees.values() for n in ast.walk(t)) and nm_.startswith("_"):
+                        tree.body.remove(s_)
+                        self.stats.setdefault("closures", []).append(sc_ + " (singleton %s)" % nm_)
         self._drop_unused_classes()
         return self.stats
 
